@@ -17,6 +17,7 @@ import warnings
 
 import numpy as np
 from implcommon import read_payload, emit, hx, unhx, guarded
+import estlayout
 
 warnings.simplefilter("ignore")
 
@@ -53,8 +54,16 @@ def do_est(c):
     dirs = arr(c["dirs"])
     shape = tuple(c["shape"])
     a = [arr(c[k]).reshape(shape) for k in ("a1", "b1", "a2", "b2")]
-    out = estimate_directional_distribution(a[0], a[1], a[2], a[3], dirs, c["method"], **kw_of(c))
+    lay = c.get("layout")
+    b = [estlayout.relayout(x, lay) for x in a]
+    out = estimate_directional_distribution(b[0], b[1], b[2], b[3], dirs, c["method"], **kw_of(c))
+    if lay:
+        # same values, another memory layout / split of the leading dimensions: back to the logical shape
+        out = np.asarray(out).reshape(shape + (out.shape[-1],))
     res = {"shape": list(out.shape), "out": hl(out)}
+    if c.get("f32"):
+        res["f32"] = guarded(lambda: [hx(v) for v in estlayout.f32_deviation(
+            estimate_directional_distribution, a, dirs, c["method"], kw_of(c))])
     if c.get("single"):
         flat = [x.reshape(-1) for x in a]
         singles = []
